@@ -131,6 +131,35 @@ func cells(seed int) []Cell {
 			}
 		}
 	}
+	// the same for a distribution-point list: taken in under verify_log / none (no verified signer is persisted with
+	// it), then the policy is tightened and the process restarted. Whatever the new process does with the stored
+	// list (it is EMPTY here, and the cell is lenient, so keeping and dropping it give the same verdicts - the
+	// property's quantifier does not cover a change of mode), a refresh under 'verify' must not bring a list that
+	// fails verification into force.
+	for _, m1 := range []string{"verify_log", "none"} {
+		for _, m2 := range []string{"verify", ""} {
+			for _, k1 := range []string{"unknown-signer", "badsig", "good"} {
+				for _, k2 := range []string{"unknown-signer", "badsig"} {
+					for _, bg := range []bool{false, true} {
+						c := Cell{Mode: m1 + "->" + m2, Signer: k1 + "->" + k2, Intake: "refresh-after-restart+mode-change", Disk: true, Bg: bg}
+						h := sim.Spec{Issuers: 1, Config: sim.Config{Disk: true, Background: bg, Sig: m1, Strict: false, TrustSigners: false}}
+						h.CDPs = []sim.CDPSpec{{Issuer: 0, Kind: "http", Twin: -1}}
+						h.Initial = []sim.Content{{Kind: k1, Set: []int{}}}
+						h.Events = append(h.Events, probes(0)[:2]...)
+						h.Events = append(h.Events, sim.Event{Kind: "tick"})
+						h.Events = append(h.Events, sim.Event{Kind: "restart", SetSig: true, Sig: m2})
+						h.Events = append(h.Events, probes(0)[:1]...)
+						h.Events = append(h.Events, sim.Event{Kind: "origin", CDP: 0, Content: sim.Content{Kind: k2, Set: subset(r, r.IntN(3))}}, sim.Event{Kind: "tick"})
+						h.Events = append(h.Events, probes(0)...)
+						h.Events = append(h.Events, sim.Event{Kind: "tick"})
+						h.Events = append(h.Events, probes(0)...)
+						c.History = h
+						out = append(out, c)
+					}
+				}
+			}
+		}
+	}
 	return out
 }
 
@@ -152,7 +181,7 @@ func runCell(c Cell, x *ev.Ctx) error {
 var spec = ev.Spec[Cell]{
 	ID:          "C16",
 	Run:         runCell,
-	Rule:        "exhaustive matrix: signature mode {unset, verify, verify_log, none} x signer {resolvable, unknown signer, wrong signature by a same-name sibling} x intake path {provision-time crl_file, provision-time crl_url, first CDP fetch, refresh to a newer list, refresh after a restart (disk)} x storage x fetch mode, plus 48 cells in which a configured list accepted under verify_log / none is met again after a restart under verify / unset; each cell is expanded into a history (probe handshakes before/after the intake, then origin broken, restart, probe handshakes again) executed on a real checker and compared with the reference model: under verify/unset a list is in force iff signer resolvable and signature right, on every path and after restart; under verify_log/none every parseable list is in force, provisioning succeeds and a refresh brings the NEW content into force. List contents, AKI presence and encoding are drawn from VERIF_SEED. Every cell is non-trivial.",
+	Rule:        "exhaustive matrix: signature mode {unset, verify, verify_log, none} x signer {resolvable, unknown signer, wrong signature by a same-name sibling} x intake path {provision-time crl_file, provision-time crl_url, first CDP fetch, refresh to a newer list, refresh after a restart (disk)} x storage x fetch mode, plus 48 cells in which a configured list accepted under verify_log / none is met again after a restart under verify / unset, plus 48 cells in which an (empty) distribution-point list taken in under verify_log / none is refreshed with a list that fails verification after a restart under verify / unset (lenient, so that the verdicts do not depend on whether the stored unverified list is kept); each cell is expanded into a history (probe handshakes before/after the intake, then origin broken, restart, probe handshakes again) executed on a real checker and compared with the reference model: under verify/unset a list is in force iff signer resolvable and signature right, on every path and after restart; under verify_log/none every parseable list is in force, provisioning succeeds and a refresh brings the NEW content into force. List contents, AKI presence and encoding are drawn from VERIF_SEED. Every cell is non-trivial.",
 	Assumptions: []string{"configured CRLs in mode verify need a configured trusted signer (no handshake chain exists at provisioning); the cells configure one"},
 }
 
